@@ -11,6 +11,7 @@ TRUSTED_BASE = ["harness/cache_corr.py worlds; store state snapshot/restore betw
 
 
 def run(ctx):
+    dry_run_leaves_no_trace(ctx)
     import translate_avs
     translate_avs.check(ctx)       # _add_value_store re-read from caching.py and linked to Cache/Transform.v by a theorem
     import translate_physical
@@ -255,3 +256,44 @@ def run(ctx):
     _run_before_api(ctx)
     import api_corr
     api_corr.run_api_corr(ctx)
+
+
+def dry_run_leaves_no_trace(ctx):
+    """Two identical worlds with the same history, except that in one of them a dry run is made at some earlier point (before a source
+    update, before a deletion, twice in a row): every later real run performs exactly the same calls, reads and writes and leaves the same
+    stored values in both worlds - a dry run changes nothing, not even what the registry / plan / process remembers."""
+    import random
+    uj = core.use_repo()
+    specs = list(cache_corr.TARGETED.items())
+    for si, (name, spec) in enumerate(specs * ctx.n(1, 4)):
+        seed = ctx.rng.randrange(10 ** 9)
+        worlds = [cache_corr.World(uj, random.Random(seed), spec=spec) for _ in range(2)]
+        script_rng = random.Random(seed + 1)
+        n = worlds[0].n
+        srcs = [m["store"] for m in worlds[0].meta if m["is_src"]]
+        stored = [m["store"] for m in worlds[0].meta if m["store"] is not None and not m["is_src"]]
+        history = []
+        for step in range(5):
+            op = script_rng.choice(["update", "delete", "none"])
+            out = script_rng.choice([None, n - 1, script_rng.randrange(n)])
+            dry_first = script_rng.random() < 0.6
+            val, which = script_rng.randrange(1, 1000), script_rng.randrange(100)
+            logs = []
+            for wi_, w in enumerate(worlds):
+                if wi_ == 1 and dry_first:
+                    for _ in range(script_rng.choice([1, 1, 2]) if False else 1):
+                        w.run(out, None, dry_run=True)          # only the second world makes the dry run
+                if op == "update" and srcs:
+                    w.set_store(srcs[which % len(srcs)], val)
+                elif op == "delete" and stored:
+                    s_ = w.stores[stored[which % len(stored)]]
+                    s_.v = s_.t = None
+                res = w.run(out, None, workers=1)
+                logs.append((res[0], sorted((k, i) for k, i, _ in w.log if k in ("call", "read", "write")), [x if x is None else x[0] for x in w.sigma()]))
+            history.append((op, out, dry_first))
+            ctx.case(("c14-dry-run-leaves-no-trace", name, si, step))
+            if logs[0] != logs[1]:
+                ctx.fail("dry-run-leaves-trace", "two identical worlds (%s), the second one made a dry run before step %d of %r: the real runs differ - without the dry run: %s %r stores %r; "
+                         "with it: %s %r stores %r" % (name, step, history, logs[0][0], logs[0][1][:12], logs[0][2], logs[1][0], logs[1][1][:12], logs[1][2]),
+                         {"world": name, "history": history, "meta": worlds[0].meta})
+                break
